@@ -209,6 +209,10 @@ func vkEnter(call string, tree bool) unix.Errno {
 			vCover("kernel: an in-root entry is replaced by a link to the canary")
 		}
 	}
+	if call == "getdents" {
+		// (os.File.Readdirnames retries EINTR itself)
+		return 0
+	}
 	if w.eintrBudget > 0 && vChoose(2) == 1 {
 		w.eintrBudget--
 		return unix.EINTR
